@@ -4,26 +4,30 @@
      {ev:"init", defs:[{name, src, inh, keys}]}      the manager is created over source 1 (i = 0)
      {ev:"add",  defs:[...], raised}                 add_config_source(source src)
      {ev:"read", root, outcome, vals:[{k,name,src}]} collapse_named_section(root)
+     {ev:"abort", root, raised}                      a collapse of root left by an injected pass-through
+                                                     exception (raised = it really was interrupted)
    The walk keeps the sources added so far; every read is judged against the fresh collapse
-   of exactly those (JudgeRead), clauses of reads that follow an add are prefixed AfterAdd_.
+   of exactly those (JudgeRead), clauses of reads that follow an add are prefixed AfterAdd_,
+   of reads that follow an aborted collapse AfterAbort_ (an abort changes nothing in the sources).
    If add_config_source itself raises, what the manager then holds is not specified: the rest
    of that history is not judged ("_Unspecified").                                           *)
 EXTENDS ConfigInherit, TraceLib
 VARIABLES l, st
 Defs(e) == {[name |-> e.defs[k].name, src |-> e.defs[k].src, inh |-> e.defs[k].inh, keys |-> AsSet(e.defs[k].keys)] : k \in DOMAIN e.defs}
 Step(s, e) ==
-  CASE e.ev = "init" -> [s |-> [cfg |-> Defs(e), adds |-> 0, dead |-> FALSE],
+  CASE e.ev = "init" -> [s |-> [cfg |-> Defs(e), adds |-> 0, aborts |-> 0, dead |-> FALSE],
                          bad |-> IF Cardinality(Defs(e)) # Len(e.defs) THEN {"OutsideDomain"} ELSE {}]
-    [] e.ev = "add"  -> [s |-> [cfg |-> s.cfg \cup Defs(e), adds |-> s.adds + 1, dead |-> s.dead \/ e.raised],
+    [] e.ev = "abort" -> [s |-> [s EXCEPT !.aborts = @ + (IF e.raised THEN 1 ELSE 0)], bad |-> {}]
+    [] e.ev = "add"  -> [s |-> [cfg |-> s.cfg \cup Defs(e), adds |-> s.adds + 1, aborts |-> s.aborts, dead |-> s.dead \/ e.raised],
                          bad |-> IF \E d \in Defs(e) : \E x \in s.cfg : x.name = d.name /\ x.src >= d.src
                                  THEN {"OutsideDomain"} ELSE {}]
     [] e.ev = "read" -> [s |-> s,
                          bad |-> IF s.dead THEN {"_Unspecified"}
                                  ELSE LET v == JudgeRead(s.cfg, e.root, e.outcome, e.vals) IN
-                                      IF s.adds = 0 THEN v
-                                      ELSE {IF c = "_Unspecified" THEN c ELSE "AfterAdd_" \o c : c \in v}]
+                                      LET pre == IF s.aborts > 0 THEN "AfterAbort_" ELSE IF s.adds > 0 THEN "AfterAdd_" ELSE "" IN
+                                      {IF c = "_Unspecified" THEN c ELSE pre \o c : c \in v}]
     [] OTHER -> [s |-> s, bad |-> {"UnknownEvent"}]
-Blank == [cfg |-> {}, adds |-> 0, dead |-> FALSE]
+Blank == [cfg |-> {}, adds |-> 0, aborts |-> 0, dead |-> FALSE]
 TraceInit == l = 0 /\ st = Blank
 TraceNext == /\ l < Len(Tr)
              /\ l' = l + 1
